@@ -204,8 +204,14 @@ where
 {
     let t = |x: f64| T::from_f64(x).unwrap();
     let tg = &c["target"];
-    let a: Vec<f64> = u64s(&tg["prec"]).into_iter().map(f64::from_bits).collect();
-    let target = UserG::GaussPrec(us(tg, "d"), a);
+    let target = match strf(tg, "kind") {
+        "gaussprec" => UserG::GaussPrec(us(tg, "d"), u64s(&tg["prec"]).into_iter().map(f64::from_bits).collect()),
+        "halfline" => UserG::HalfLine,
+        "logdomain" => UserG::LogDomain,
+        "ball" => UserG::Ball,
+        "quartic" => UserG::Quartic(f64::from_bits(u64f(tg, "s"))),
+        k => panic!("unknown target {k}"),
+    };
     let mk = |k: &str| {
         let v: Vec<T> = u64s(&c[k]).into_iter().map(|b| t(f64::from_bits(b))).collect();
         Tensor::<B, 1>::from_data(TensorData::new(v.clone(), [v.len()]), &Default::default())
